@@ -16,7 +16,7 @@ PROP = 'C19'
 MODEL_MODULES = ['TenpyModel.Util.J', 'TenpyModel.C19.Order', 'TenpyModel.C19.Lattice', 'TenpyModel.C19.Couplings',
                  'TenpyModel.C19.Variants']
 PROPS_MODULES = ['TenpyModel.C19.PropsOrder', 'TenpyModel.C19.PropsIndex', 'TenpyModel.C19.PropsCouplings',
-                 'TenpyModel.C19.PropsPairs']
+                 'TenpyModel.C19.PropsMulti', 'TenpyModel.C19.PropsVariants', 'TenpyModel.C19.PropsPairs']
 LEAN_MODULES = PROPS_MODULES
 LEVEL = 'proof'
 BUDGET = {'quick': 170, 'thorough': 1700}
@@ -62,7 +62,10 @@ def oracle_query(geo, lat, q):
     if t == 'masked':
         return R.oracle_masked(geo, lat, q[1], q[2], q[3])
     if t == 'coup':
-        return R.oracle_couplings(geo, lat, q[1], q[2], q[3])
+        f = R.oracle_couplings(geo, lat, q[1], q[2], q[3])
+        if f is None and not geo.tagged:
+            f = R.oracle_model_coupling(geo.case, geo, q[1], q[2], q[3])
+        return f
     if t == 'coupall':
         for u1 in range(geo.Lu):
             for u2 in range(geo.Lu):
@@ -81,6 +84,7 @@ def oracle_case(case, lat):
     out = []
     geo = R.Geometry(case, lat)
     tag = case_tag(case)
+    geo.tagged = bool(tag)
     f = geo.check_bijection()
     if f:
         out.append(('order.not-a-bijection-onto-sites', f, [['order']]))
@@ -253,9 +257,19 @@ def histogram(res, case):
 
 def process_chunk(args):
     """Worker: evaluate cases on the real code + oracle, run the Lean model on the same cases, diff."""
-    cases, use_model, do_shrink = args
+    cases, use_model, do_shrink = args[:3]
+    qspec = args[3] if len(args) > 3 else None
+    if qspec is not None:
+        # queries are attached here (in the worker) from a PRNG derived from the run seed and the case itself
+        import random
+        seed_str, n_detail, n_multi = qspec
+        for c in cases:
+            if not c['q']:
+                rng = random.Random(seed_str + json.dumps({k: v for k, v in c.items() if k != 'q'}, sort_keys=True))
+                c['q'] = G.standard_queries(c, rng, n_detail=n_detail, n_multi=n_multi)
     res = core.Result()
-    shrunk = set()
+    # witnesses of the known findings are in the corpus already: do not spend the budget on shrinking them again
+    shrunk = {k['signature'] for k in core.load_known_findings() if k.get('property') == PROP}
     evals = [eval_case(c) for c in cases]
     models = [None] * len(cases)
     if use_model:
@@ -288,6 +302,8 @@ def process_chunk(args):
             if 'error' in mod or '_raw' in mod:
                 res.fail('correspondence', 'model.error', str(mod)[:300], case)
                 continue
+            if ev['answers'] is None:
+                continue
             for k, (q, a, m) in enumerate(zip(case['q'], ev['answers'], mod['r'])):
                 if isinstance(a, dict) and 'raised' in a:
                     # the real code raised: only acceptable where the model flags an error too
@@ -319,16 +335,26 @@ def process_chunk(args):
     return res
 
 
-def run_cases(ctx, cases, use_model=True, workers=1, chunk=25, do_shrink=True):
+def run_cases(ctx, cases, use_model=True, workers=1, chunk=25, do_shrink=True, deadline=None, qspec=None):
+    """-> Result; res.extra['cases_done'] = number of cases processed before the deadline (all, if None)"""
     res = core.Result()
-    chunks = [(cases[i:i + chunk], use_model, do_shrink) for i in range(0, len(cases), chunk)]
+    chunks = [(cases[i:i + chunk], use_model, do_shrink, qspec) for i in range(0, len(cases), chunk)]
+    done = 0
     if workers <= 1 or len(chunks) <= 1:
         for ch in chunks:
             res.merge(process_chunk(ch))
+            done += len(ch[0])
+            if deadline is not None and time.time() > deadline:
+                break
     else:
         with mp.get_context('fork').Pool(workers) as pool:
-            for r in pool.imap_unordered(process_chunk, chunks):
+            for r in pool.imap(process_chunk, chunks):
                 res.merge(r)
+                done += r.evaluations
+                if deadline is not None and time.time() > deadline:
+                    pool.terminate()
+                    break
+    res.extra['cases_done'] = done
     return res
 
 
@@ -369,7 +395,7 @@ def quick_cases(ctx):
     hel = G.helical_cases(rng, full=False)
     rng.shuffle(hel)
     cases += hel[:12]
-    n = 170
+    n = 260
     for _ in range(n):
         c = G.random_case(rng)
         cases.append(c)
@@ -382,14 +408,14 @@ def quick_cases(ctx):
 
 def thorough_cases(ctx):
     rng = ctx.sub_rng('thorough')
-    cases = list(G.exhaustive_family(rng))
-    n_family = len(cases)
-    cases += G.helical_cases(rng, full=True)
-    for _ in range(3000):
+    family = list(G.exhaustive_family(rng))
+    ctx.sub_rng('shuffle').shuffle(family)  # balanced chunks; the family is processed first and completely
+    extra = G.helical_cases(rng, full=True)
+    for _ in range(2500):
         c = G.random_case(rng)
         v = G.random_variant(rng, c)
-        cases.append(v if v is not None else c)
-    return with_queries(cases, rng, n_detail=3, n_multi=3), n_family
+        extra.append(v if v is not None else c)
+    return family, with_queries(extra, rng, n_detail=3, n_multi=4)
 
 
 def run(ctx):
@@ -405,11 +431,22 @@ def run(ctx):
         res.merge(run_cases(ctx, cases, workers=workers, chunk=8))
         res.extra['exhaustive'] = False
     else:
-        cases, n_family = thorough_cases(ctx)
-        ctx.sub_rng('shuffle').shuffle(cases)
-        res.merge(run_cases(ctx, cases, workers=workers, chunk=40))
-        res.extra['exhaustive'] = True
-        res.extra['exhaustive_family_cases'] = n_family
+        family, extra = thorough_cases(ctx)
+        # the Lean build, audit and leanchecker happen before/after: leave them a third of the budget
+        deadline = ctx.t0 + 0.72 * ctx.budget_s
+        r = run_cases(ctx, family, workers=workers, chunk=40, deadline=deadline,
+                      qspec=(f'C19:{ctx.seed}:family:', 2, 2))
+        res.merge(r)
+        res.extra['exhaustive_family_cases'] = len(family)
+        res.extra['exhaustive_family_done'] = r.extra.get('cases_done', 0)
+        res.extra['exhaustive'] = r.extra.get('cases_done', 0) >= len(family)
+        if res.extra['exhaustive']:
+            r2 = run_cases(ctx, extra, workers=workers, chunk=25, deadline=ctx.t0 + 0.8 * ctx.budget_s)
+            res.merge(r2)
+            res.extra['variant_cases_done'] = r2.extra.get('cases_done', 0)
+        else:
+            res.extra['note'] = ('time budget reached before the whole family was processed (machine load); '
+                                 'exhaustive=False for this run')
     res.extra['cases_wall_s'] = round(time.time() - t0, 1)
     return res
 
